@@ -1,6 +1,7 @@
-(** C03 — lemmas.  (work in progress: see ProofsInv.v) *)
+(** C03 — small lemmas and the non-vacuity example (the invariants are in ProofsMono.v and
+    ProofsInv.v). *)
 From Coq Require Import List ZArith NArith Bool Lia.
-From Kardia Require Import C03.Node.
+From Kardia Require Import C03.Node C03.ProofsMono C03.ProofsInv.
 Import ListNotations.
 Local Open Scope N_scope.
 
@@ -10,3 +11,38 @@ Proof.
   destruct (pol <? 1) eqn:E; [|reflexivity]. apply N.ltb_lt in E.
   assert (pol = 0) by lia. subst. cbn. destruct r; reflexivity.
 Qed.
+
+(** hence a proposal whose POLRound is not below its round is accepted like any other *)
+Lemma proposal_polround_unchecked proposer p s :
+  prop s = None -> p_height p = height s -> p_round p = round s ->
+  p_signer p = Some (proposer (height s) (prop_round s)) ->
+  prop (recv_proposal proposer p s) = Some p.
+Proof.
+  intros E Hh Hr Hs. unfold recv_proposal. rewrite E, Hh, Hr, !N.eqb_refl. cbn [negb orb].
+  rewrite pol_check_dead, Hs, N.eqb_refl. cbn [negb]. destruct (pparts _); reflexivity.
+Qed.
+
+(** A concrete run (4 validators of power 10, the node is validator 0 and proposer of round 1):
+    NewHeight timeout, own proposal and block, own prevote, two more prevotes: the node signs a
+    proposal, a prevote and a precommit for the block — the theorems are not vacuous. *)
+Section Example.
+Let valid (h : N) (b : block) : bool := (h =? 1) && (b_hash b =? 7).
+Let vals (_ : N) : list Z := [10; 10; 10; 10]%Z.
+Let proposer (_ r : N) : N := (r - 1) mod 4.
+Let mkblock (_ _ : N) : option block := Some {| b_hash := 7; b_parts := 3 |}.
+Let cfg : config := {| skip_timeout_commit := false; create_empty_blocks := true;
+                       empty_interval_pos := false; initial_height := 1 |}.
+Let b7 : bid := {| bh := 7; bp := 3 |}.
+Let pv (i : N) : vote := {| v_type := Prevote; v_height := 1; v_round := 1; v_bid := b7; v_idx := i; v_ok := true |}.
+Let script : list input :=
+  [ InTimeout 1 1 SNewHeight;
+    InProposal {| p_height := 1; p_round := 1; p_pol := 0; p_bid := b7; p_signer := Some 0 |};
+    InBlock 1 1 {| b_hash := 7; b_parts := 3 |};
+    InVote 0 (pv 0); InVote 1 (pv 1); InVote 2 (pv 2) ].
+
+Example run_signs :
+  let l := log (run valid vals proposer mkblock cfg (Some 0) script) in
+  map (fun v => (v_type v, v_round v, bh (v_bid v))) (signed_votes l) = [(Precommit, 1, 7); (Prevote, 1, 7)] /\
+  length (signed_proposals l) = 1%nat.
+Proof. vm_compute. split; reflexivity. Qed.
+End Example.
